@@ -16,7 +16,10 @@
 (*                   this cycle: 0 = not driven, 1 = J, 2 = K, 3 = SE0,    *)
 (*                   4 = SE1, 5 = d_p.oe # d_n.oe                          *)
 (*         a, rv, rd rx_active / rx_valid / rx_data                        *)
+(*         lb        Env: a K or SE0 sample was put on D+/D- in this cycle *)
 (*         e         the four usb_io samples of rx_error (0/1)             *)
+(*         rst, txk, rxk   ResetSignal of both domains asserted in this    *)
+(*                   cycle, and the packet indices after it (else 0)       *)
 (* cfg.kind = "ctl"  (static clauses)                                      *)
 (*   cfg.pu / cfg.pd : the io record has a pullup / pulldown element       *)
 (*   step: op, v, d, ts, dp, dm  inputs;  oe (any of the four samples      *)
@@ -44,6 +47,8 @@ Cfg   == Logs[tid].cfg
 Steps == Logs[tid].steps
 
 Grace == 2            \* cycles a control request must have been stable before the output is compared
+QuietMax == 16        \* rx_active must not be high when no K / SE0 has been on the line for this many bit times
+                      \* (at most 8 inside a packet incl. the EOP's J; the rest is latency allowance)
 MinPulse == 4         \* usb_io cycles in one usb cycle: a pulse at least this long is seen at a usb clock edge
 
 Min(a, b) == IF a < b THEN a ELSE b
@@ -53,7 +58,7 @@ NoVec == [bytes |-> <<>>, hit |-> 0, syms |-> <<>>]
 
 TsInit == [txk |-> 1, acc |-> <<>>, pend |-> <<>>, vseen |-> FALSE,          \* transmit side
            rxk |-> 0, got |-> <<>>, act |-> FALSE, rexp |-> [ok |-> TRUE, bytes |-> <<>>, why |-> "none"],
-           ew |-> 0, emax |-> 0, eage |-> 9, shortpulse |-> FALSE,           \* receive side
+           ew |-> 0, emax |-> 0, eage |-> 9, shortpulse |-> FALSE, quiet |-> 99,   \* receive side
            ndrun |-> 0, turun |-> 0, pdrun |-> 0, lastts |-> FALSE, lastpd |-> FALSE]   \* control
 
 -----------------------------------------------------------------------------
@@ -161,10 +166,12 @@ RxRec(s, r) ==     \* returns [s, fail]
               ELSE s
         s2 == ErrSample(ErrSample(ErrSample(ErrSample(s1, r.a, r.e[1]), r.a, r.e[2]), r.a, r.e[3]), r.a, r.e[4])
         s3 == [s2 EXCEPT !.act = r.a,
+                         !.quiet = IF r.lb THEN 0 ELSE Min(s.quiet + 1, 99),
                          !.eage = IF anyErr THEN 0 ELSE Min(s.eage + 1, 9),
                          !.got = IF r.rv /\ r.a THEN Append(s2.got, r.rd) ELSE s2.got]
         fail == IF rising /\ s.rxk + 1 > Len(Cfg.rxp) THEN "rx_spurious_frame"
                 ELSE IF r.rv /\ ~r.a THEN "rx_valid_outside_active"
+                ELSE IF r.a /\ s3.quiet > QuietMax THEN "rx_active_on_idle_line"
                 ELSE IF r.a /\ s3.rexp.ok /\ ~IsPrefixOf(s3.got, s3.rexp.bytes) THEN "rx_bytes"
                 ELSE IF r.a /\ s3.rexp.ok /\ s3.emax > 0 THEN "rx_error_on_good_packet"
                 ELSE IF falling THEN
@@ -196,6 +203,13 @@ CtlRec(s, r) ==
 StepOf(r) ==       \* [s, m, fail] after consuming record r
     LET m == [vec |-> vec, tx |-> tx, line |-> line, rx |-> rx] IN
     IF Cfg.kind = "ctl" THEN LET c == CtlRec(ts, r) IN [s |-> c.s, m |-> m, fail |-> c.fail]
+    ELSE IF r.rst THEN
+        \* Env: both clock-domain resets are asserted in this cycle.  Whatever was in flight is given up (the
+        \* record carries the bookkeeping indices: packets offered / put on the line so far); nothing is demanded
+        \* of the outputs while the reset is held; afterwards the PHY must behave as freshly started (idle line,
+        \* rx_active low -- otherwise the next records fail tx_drive_without_request / rx_spurious_frame).
+        [s |-> [TsInit EXCEPT !.txk = r.txk, !.rxk = r.rxk],
+         m |-> [vec |-> NoVec, tx |-> TxIdle, line |-> <<>>, rx |-> RxStart], fail |-> "ok"]
     ELSE
         LET t == TxRec(ts, m, r)
             x == RxRec(t.s, r)
